@@ -3206,11 +3206,14 @@ impl ModuleSourceAndInfo {
     }
   }
 
-  pub fn source_bytes(&self) -> &[u8] {
+  /// The bytes the loader supplied for this module, when they are still
+  /// known. Returns `None` when the source had to be transcoded (ex. utf-16),
+  /// because only the decoded text is retained in that case.
+  pub fn try_get_original_source_bytes(&self) -> Option<Arc<[u8]>> {
     match self {
-      Self::Json { source, .. } => source.text.as_bytes(),
-      Self::Js { source, .. } => source.text.as_bytes(),
-      Self::Wasm { source, .. } => source,
+      Self::Json { source, .. } => source.try_get_original_bytes(),
+      Self::Js { source, .. } => source.try_get_original_bytes(),
+      Self::Wasm { source, .. } => Some(source.clone()),
     }
   }
 }
@@ -6551,12 +6554,15 @@ impl<'a, 'graph> Builder<'a, 'graph> {
           && matches!(specifier.scheme(), "https" | "http")
           && let Some(locker) = &mut self.locker
             && !locker.has_remote_checksum(&specifier)
+            // the checksum must be of the bytes the loader supplied (what a
+            // loader verifies), not of the decoded text, which differs when
+            // the source had a BOM or another charset
+            && let Some(source_bytes) =
+              module_source_and_info.try_get_original_source_bytes()
         {
           locker.set_remote_checksum(
             &specifier,
-            LoaderChecksum::new(LoaderChecksum::r#gen(
-              module_source_and_info.source_bytes(),
-            )),
+            LoaderChecksum::new(LoaderChecksum::r#gen(&source_bytes)),
           );
         }
 
